@@ -25,6 +25,7 @@ let parse_ops op =
   | 'l' -> [OpLen]
   | 'b' -> [OpGetBytes]
   | 'i' -> [OpIterBytes]
+  | 'I' -> [OpIterBytes]   (* overlapping another list's iteration: same observable result *)
   | _ -> failwith "bad op"
 
 let show = function
